@@ -176,6 +176,14 @@ class Run:
                 vals = [untok(t) for t in cur]
                 kind = op[3] if (op[3] != 'update' or m.fd(op[2])['unique']) else 'extend'
                 op[:] = [kind, op[1], op[2], vals, 'alias']
+            if op[0] == 'extendfrom' or (len(op) > 5 and op[4] == 'from'):
+                # the argument is the LIVE collection of another object (b.items.extend(a.items)): for the model and the
+                # oracles it is the snapshot of that collection taken before the call
+                kind, src = (op[3], op[4]) if op[0] == 'extendfrom' else (op[0], op[5])
+                cur = pre['objs'][src]['feats'].get(op[2], [])
+                vals = [untok(t) for t in cur]
+                kind = kind if (kind != 'update' or m.fd(op[2])['unique']) else 'extend'
+                op[:] = [kind, op[1], op[2], vals, 'from', src]
             if creates_cycle(m, pre, op):
                 self.skipped.append(i)
                 continue
